@@ -1,7 +1,7 @@
 SPECIFICATION Spec
 CONSTANTS K = 3
           Vals = {"x"}
-          Ranges = {13}
+          Ranges = {12, 23, 22}
           WithBatch = FALSE
           Mode = "mc"
           Depth = 0
